@@ -39,7 +39,7 @@ def run(chk: Check) -> None:
     base = prog.cls('persistence.Persister')
 
     # 1. snapshot isolation -- save side
-    ms = mem.methods['save_checkpoint']
+    ms = prog.view(mem.methods['save_checkpoint'])
     stores = [n for n in ast.walk(ms.node) if isinstance(n, ast.Assign) and isinstance(n.targets[0], ast.Subscript)]
     ok = False
     if len(stores) == 1 and isinstance(stores[0].value, ast.Call) and last_name(stores[0].value) == 'Bundle':
@@ -57,7 +57,7 @@ def run(chk: Check) -> None:
     ok = bool(deref) and all(('T', 'dereference') in bf.at(n) for c in deref for n in bf.cfg.nodes_containing(c)) and all(
         ('F', 'dereference') in bf.at(n) for c in upd if c not in deref for n in bf.cfg.nodes_containing(c))
     chk.ob('PROV-snapshot-isolation', bi, ok, 'Bundle(dereference=True) deep-copies the saved state', kind='bundle-dereference')
-    pst = pic.methods['save_checkpoint']
+    pst = prog.view(pic.methods['save_checkpoint'])
     cfg = cfg_of(pst)
     dumps = [n for n in cfg.nodes if any(isinstance(c, ast.Call) and norm(c.func) in ('pickle.dump', 'pickle.dumps') for c in (walk_shallow(n.expr()) if n.expr() is not None else []))]
     ok = len(dumps) == 1 and cfg.must_pass(cfg.entry, [cfg.exit], lambda m: m in dumps, edge_ok=no_exc)
@@ -70,7 +70,7 @@ def run(chk: Check) -> None:
 
     # 1. snapshot isolation -- load side: the returned bundle is fresh, not the persister's own object
     for cls in (mem, pic):
-        lf = cls.methods['load_checkpoint']
+        lf = prog.view(cls.methods['load_checkpoint'])
         rets = [r for r in ast.walk(lf.node) if isinstance(r, ast.Return) and r.value is not None]
         ok = bool(rets)
         detail = []
@@ -86,10 +86,10 @@ def run(chk: Check) -> None:
                node=rets[0] if rets else None, kind='load:fresh')
 
     # 2. one key function
-    fp = pic.methods.get('_pickle_filepath')
+    fp = prog.view(pic.methods.get('_pickle_filepath'))
     chk.need(fp is not None, 'PicklePersister._pickle_filepath not found')
     for name in ('save_checkpoint', 'load_checkpoint', 'delete_checkpoint'):
-        f = pic.methods[name]
+        f = prog.view(pic.methods[name])
         cs = [c for c in calls_in_func(f, '_pickle_filepath')]
         if name == 'save_checkpoint':
             want = [f'{f.params[1]}.pid', f.params[2]]
@@ -114,14 +114,14 @@ def run(chk: Check) -> None:
     c = [x for x in calls_in_func(fp, 'pickle_filename')]
     chk.ob('SIB-key-function', fp, len(c) == 1 and [norm(a) for a in c[0].args] == fp.params[1:3] and any('self._pickle_directory' in norm(a) for j in calls_in_func(fp, 'join') for a in j.args),
            'the path is <directory>/<name(pid, tag)>', kind='path-from-name')
-    gp = pic.methods['get_process_checkpoints']
+    gp = prog.view(pic.methods['get_process_checkpoints'])
     comp = [n for n in ast.walk(gp.node) if isinstance(n, ast.ListComp)]
     ok = len(comp) == 1 and len(comp[0].generators[0].ifs) == 1 and norm(comp[0].generators[0].ifs[0]) in (f'c.pid == {gp.params[1]}', f'{gp.params[1]} == c.pid')
     chk.ob('SIB-key-function', gp, ok, 'the checkpoints of a process are those whose pid equals the given pid', kind='filter-by-pid')
-    mg = mem.methods['get_process_checkpoints']
+    mg = prog.view(mem.methods['get_process_checkpoints'])
     ok = any(isinstance(n, ast.Subscript) and norm(n) == f'self._checkpoints[{mg.params[1]}]' for n in ast.walk(mg.node))
     chk.ob('SIB-key-function', mg, ok, 'in memory: the tags stored under that pid', kind='filter-by-pid')
-    ml = mem.methods['load_checkpoint']
+    ml = prog.view(mem.methods['load_checkpoint'])
     ok = any(isinstance(n, ast.Subscript) and norm(n) == f'self._checkpoints[{ml.params[1]}][{ml.params[2]}]' for n in ast.walk(ml.node))
     chk.ob('SIB-key-function', ml, ok, 'in memory: load reads the entry [pid][tag]', kind='keyed-by-both')
     ok = len(stores) == 1 and norm(stores[0].targets[0]) == f'self._checkpoints.setdefault({ms.params[1]}.pid, {{}})[{ms.params[2]}]'
@@ -129,7 +129,7 @@ def run(chk: Check) -> None:
 
     # 3. idempotent delete
     for cls in (mem, pic):
-        df = cls.methods['delete_checkpoint']
+        df = prog.view(cls.methods['delete_checkpoint'])
         tries = [t for t in ast.walk(df.node) if isinstance(t, ast.Try)]
         ok = False
         for t in tries:
@@ -137,12 +137,12 @@ def run(chk: Check) -> None:
             hs = [h for h in t.handlers if h.type is not None and norm(h.type) in ('KeyError', 'OSError', 'FileNotFoundError', '(KeyError,)')]
             ok = bool(acts) and bool(hs) and all(not any(isinstance(x, ast.Raise) for s in h.body for x in ast.walk(s)) for h in hs)
         chk.ob('PAIR-idempotent-delete', df, ok, f'{cls.name}.delete_checkpoint tolerates a checkpoint that does not exist', kind='missing-tolerated')
-    md = mem.methods['delete_process_checkpoints']
+    md = prog.view(mem.methods['delete_process_checkpoints'])
     dels = [n for n in ast.walk(md.node) if isinstance(n, ast.Delete)]
     ok = len(dels) == 1 and norm(dels[0].targets[0]) == f'self._checkpoints[{md.params[1]}]'
     ff2 = chk.ctx.facts.analyse(md)
     chk.ob('PAIR-idempotent-delete', md, ok, 'in memory: deleting a process\'s checkpoints removes exactly that pid\'s entry', kind='only-that-pid')
-    pd = pic.methods['delete_process_checkpoints']
+    pd = prog.view(pic.methods['delete_process_checkpoints'])
     loop = [l for l in ast.walk(pd.node) if isinstance(l, ast.For)]
     ok = len(loop) == 1 and norm(loop[0].iter) == f'self.get_process_checkpoints({pd.params[1]})' and any(
         isinstance(c, ast.Call) and norm(c.func) == 'self.delete_checkpoint' and [norm(a) for a in c.args] == ['checkpoint.pid', 'checkpoint.tag'] for c in ast.walk(loop[0]))
@@ -154,7 +154,7 @@ def run(chk: Check) -> None:
         missing = [a for a in abstract if a not in cls.methods]
         chk.ob('SIB-interface', cls.qualname, not missing, f'{cls.name} implements every abstract method of Persister (missing: {missing})', kind='implements-all')
         for a in abstract:
-            if a in cls.methods and cls.methods[a].params != base.methods[a].params:
-                chk.info('SIB-interface', f'{cls.name}.{a} parameters {cls.methods[a].params} differ from the abstract {base.methods[a].params}')
+            if a in cls.methods and prog.view(cls.methods[a]).params != prog.view(base.methods[a]).params:
+                chk.info('SIB-interface', f'{cls.name}.{a} parameters {prog.view(cls.methods[a]).params} differ from the abstract {prog.view(base.methods[a]).params}')
     chk.assumptions.append('equivalence of the two persisters over histories (exception types for a missing checkpoint differ: KeyError vs FileNotFoundError), listing order and ids '
                            'containing the separator are not decided')
